@@ -93,7 +93,7 @@ func verifH_SendFC() {
 	upd := 0
 	cancelled := false
 	// scenario 0: window updates only; scenario 1: a cancellation (and at most one update)
-	mayCancel := verifChoice("scenario", 2) == 1
+	mayCancel := verifParam("cancel") == 1 && verifChoice("scenario", 2) == 1
 	if mayCancel && maxUpd > 1 {
 		maxUpd = 1
 	}
@@ -138,6 +138,9 @@ func verifH_SendFC() {
 		}
 		if upd > 0 {
 			verifCover("completed-with-update")
+		}
+		if len(log) > 3 {
+			verifCover("four-frames")
 		}
 	} else if err == sendErr {
 		verifAssert(calls == len(log)+1, "C01+C13.stop-at-first-failure")
